@@ -18,7 +18,7 @@
      0 = "".
    * Go maps are association lists (ZMap.v); iteration order of a Go map is unspecified, so everything
      that is compared after a map range is compared up to order (see Corr.v). *)
-From GocqlV Require Import Lib.Base Gen.Consts C16.ZMap.
+From GocqlV Require Import Lib.Base C16.ZMap.
 
 (* ---------------------------------------------------------------- addresses *)
 Definition ip := option Z.
@@ -197,9 +197,13 @@ Record sess := mkSess {
   s_ring : ring;
   s_pool : list Z;          (* ids that have a connection pool (policyConnPool.hostConnPools keys) *)
   s_log : list paction;     (* calls made on the host selection policy, oldest first *)
-  s_refresh : bool          (* a debounced ring refresh has been requested *)
+  s_refresh : Z             (* calls of debounceRingRefresh since the last refresh ran (timer armed iff > 0) *)
 }.
-Definition empty_sess : sess := mkSess empty_ring [] [] false.
+Definition empty_sess : sess := mkSess empty_ring [] [] 0.
+(* debounceRingRefresh *)
+Definition request_refresh (s : sess) : sess := mkSess (s_ring s) (s_pool s) (s_log s) (s_refresh s + 1).
+(* a refresh runs: the flusher stops the timer *)
+Definition refresh_started (s : sess) : sess := mkSess (s_ring s) (s_pool s) (s_log s) 0.
 
 Record cfg := mkCfg {
   accept : hostinfo -> bool;     (* HostFilter.Accept; filterHost = negb accept *)
@@ -281,7 +285,7 @@ Definition refresh_rows (c : cfg) (s : sess) (local : hostinfo) (rows : list hos
 (* handleNodeUp: None = nil dereference (getHostByIP returned (nil, true)) *)
 Definition node_up (c : cfg) (s : sess) (key : Z) : option sess :=
   match get_by_ip (s_ring s) key with
-  | (_, false) => Some (mkSess (s_ring s) (s_pool s) (s_log s) true)
+  | (_, false) => Some (request_refresh s)
   | (None, true) => None
   | (Some h, true) => if negb (accept c h) then Some s else Some (start_pool_fill s h)
   end.
@@ -338,7 +342,7 @@ Fixpoint dispatch (c : cfg) (s : sess) (m : zmap Z) : option sess :=
 (* handleNodeEvent on the frames of one debounce window; None = panic *)
 Definition handle_node_events (c : cfg) (s : sess) (evs : list nevent) : option sess :=
   let topo := existsb is_topo evs in
-  let s1 := if topo && negb (dis_topo c) then mkSess (s_ring s) (s_pool s) (s_log s) true else s in
+  let s1 := if topo && negb (dis_topo c) then request_refresh s else s in
   dispatch c s1 (status_map evs []).
 
 (* ---------------------------------------------------------------- session histories *)
@@ -368,9 +372,8 @@ Definition step (c : cfg) (s : sess) (l : label) : option sess :=
   | LInit hs => init_hosts c s hs
   | LControl h => match add_or_update (s_ring s) h with None => None | Some (r', _) => Some (with_ring s r') end
   | LRefresh report =>
-      let s0 := mkSess (s_ring s) (s_pool s) (s_log s) false in
-      match refresh c s0 report with (_, RPanic) => None | (s', _) => Some s' end
-  | LRefreshFail => Some (mkSess (s_ring s) (s_pool s) (s_log s) false)
+      match refresh c (refresh_started s) report with (_, RPanic) => None | (s', _) => Some s' end
+  | LRefreshFail => Some (refresh_started s)
   | LEvents evs => handle_node_events c s evs
   | LConnected id => Some (node_connected c s id)
   end.
